@@ -50,9 +50,14 @@ Record skel := Skel {
   h_transfer : list hcls           (* main :323 *)
 }.
 
-(* the table of /repo HEAD written by hand (used when the translator does not recognise the
-   shape of the source, and as the non-vacuity witness of the side condition) *)
+(* the table of /repo HEAD (after 52ae5a2: parse_file catches Exception) written by hand; used
+   when the translator does not recognise the shape of the source, and as the non-vacuity witness
+   of the side condition *)
 Definition head_skel : skel :=
+  Skel 1 1 1 1 ILenErr 1 1 1 0 1 1
+       [HException] [[HOSError]; [HException]] [HException] [HException].
+(* the table before 52ae5a2: parse_file caught (KeyError, AttributeError, OSError) only *)
+Definition narrow_skel : skel :=
   Skel 1 1 1 1 ILenErr 1 1 1 0 1 1
        [HKeyError; HAttributeError; HOSError] [[HOSError]; [HException]] [HException] [HException].
 
